@@ -576,9 +576,18 @@ impl Formatter<'_> {
             let orig_lens: Vec<(usize, usize)> = (self.output.split('\n'))
                 .map(|s| (s.len(), s.chars().count()))
                 .collect();
+            // Only the lines that get a comment are trimmed,
+            // trailing spaces elsewhere may be part of a raw string
+            let comment_lines: Vec<usize> = (self.end_of_line_comments.iter())
+                .map(|(line_number, ..)| *line_number)
+                .collect();
             let mut lines: Vec<String> = (self.output.split('\n'))
-                .map(|s| {
-                    if s.ends_with(' ') && !s.trim_start().starts_with("$ ") {
+                .enumerate()
+                .map(|(i, s)| {
+                    if comment_lines.contains(&(i + 1))
+                        && s.ends_with(' ')
+                        && !s.trim_start().starts_with("$ ")
+                    {
                         let mut trim_s = s.trim_end().to_string();
                         if trim_s.ends_with(['@', '$']) && trim_s != s {
                             trim_s.push(' ');
@@ -622,6 +631,8 @@ impl Formatter<'_> {
                         line.push(' ');
                     }
                     line.push_str(&comment);
+                    // The padding of an output comment is not kept at the end of a line
+                    line.truncate(line.trim_end().len());
                     // Update subsequent mappings
                     let byte_len_diff = line.len() as i64 - start_byte_len as i64;
                     let char_len_diff = line.chars().count() as i64 - start_char_len as i64;
